@@ -1,0 +1,53 @@
+//go:build verif
+
+package txsort
+
+// Contracts for the deductive verifier in /verif (comment-only; build tag verif).
+
+//@ func txsort.(sortableInputSlice).Less
+//@   requires 0 <= i && i < len(s) && 0 <= j && j < len(s) && s[i] != nil && s[j] != nil
+//@   ensures hash.eq(s[i].PreviousOutPoint.Hash, s[j].PreviousOutPoint.Hash) ==> (result <==> s[i].PreviousOutPoint.Index < s[j].PreviousOutPoint.Index)
+//@   ensures !hash.eq(s[i].PreviousOutPoint.Hash, s[j].PreviousOutPoint.Hash) ==> (result <==> txsort.revlt(s[i].PreviousOutPoint.Hash, s[j].PreviousOutPoint.Hash, 32))
+//@   modifies nothing
+//@   loop 1 unroll 16
+//@   reveal txsort.revlt, txsort.revlt, txsort.revlt, txsort.revlt, txsort.revlt, txsort.revlt, txsort.revlt, txsort.revlt, txsort.revlt, txsort.revlt, txsort.revlt, txsort.revlt, txsort.revlt, txsort.revlt, txsort.revlt, txsort.revlt, txsort.revlt, txsort.revlt, txsort.revlt, txsort.revlt, txsort.revlt, txsort.revlt, txsort.revlt, txsort.revlt, txsort.revlt, txsort.revlt, txsort.revlt, txsort.revlt, txsort.revlt, txsort.revlt, txsort.revlt, txsort.revlt
+//@   reveal bytes.lt, bytes.lt, bytes.lt, bytes.lt, bytes.lt, bytes.lt, bytes.lt, bytes.lt, bytes.lt, bytes.lt, bytes.lt, bytes.lt, bytes.lt, bytes.lt, bytes.lt, bytes.lt, bytes.lt, bytes.lt, bytes.lt, bytes.lt, bytes.lt, bytes.lt, bytes.lt, bytes.lt, bytes.lt, bytes.lt, bytes.lt, bytes.lt, bytes.lt, bytes.lt, bytes.lt, bytes.lt
+
+//@ func txsort.(sortableOutputSlice).Less
+//@   requires 0 <= i && i < len(s) && 0 <= j && j < len(s) && s[i] != nil && s[j] != nil
+//@   ensures s[i].Value == s[j].Value ==> (result <==> bytes.lt(s[i].PkScript, len(s[i].PkScript), s[j].PkScript, len(s[j].PkScript), 0))
+//@   ensures s[i].Value != s[j].Value ==> (result <==> s[i].Value < s[j].Value)
+//@   modifies nothing
+
+//@ func txsort.(sortableInputSlice).Swap
+//@   requires 0 <= i && i < len(s) && 0 <= j && j < len(s)
+//@   ensures s[i] == old(s[j]) && s[j] == old(s[i])
+//@   ensures forall k :: 0 <= k && k < len(s) && k != i && k != j ==> s[k] == old(s[k])
+//@   modifies s[*]
+
+//@ func txsort.(sortableOutputSlice).Swap
+//@   requires 0 <= i && i < len(s) && 0 <= j && j < len(s)
+//@   ensures s[i] == old(s[j]) && s[j] == old(s[i])
+//@   ensures forall k :: 0 <= k && k < len(s) && k != i && k != j ==> s[k] == old(s[k])
+//@   modifies s[*]
+
+//@ func txsort.(sortableInputSlice).Len
+//@   ensures result == len(s)
+//@   modifies nothing
+
+//@ func txsort.(sortableOutputSlice).Len
+//@   ensures result == len(s)
+//@   modifies nothing
+
+//@ func txsort.Sort
+//@   requires tx != nil
+//@   ensures result != nil && fresh(result)
+//@   modifies nothing
+
+//@ func txsort.InPlaceSort
+//@   requires tx != nil
+//@   modifies tx.TxIn[*], tx.TxOut[*]
+
+//@ func txsort.IsSorted
+//@   requires tx != nil
+//@   modifies nothing
